@@ -245,3 +245,72 @@ def _plot_options():
 
 _enumerated("verif.output.Output._get_plot_options#BOUNDED:line-styles-cycle-through-the-given-lists", ("C17",),
             "lines 0..12 with -lw/-ms/-lc/-ls/-ma lists of lengths 2 and 3", _plot_options(), ["verif.output.Output._get_plot_options"])
+
+
+# ------------------------------------------------------------------ map output: -clim / -cmap / -clabel reach the scatter plot and its colour bar
+class _RecMap(object):
+    def __init__(self):
+        self.scatters = []
+
+    def scatter(self, x, y, **kw):
+        self.scatters.append(kw)
+        return ("collection", len(self.scatters))
+
+    def plot(self, *a, **kw):
+        pass
+
+
+class _RecBar(object):
+    def __init__(self, owner):
+        self.owner = owner
+
+    def set_label(self, text, **kw):
+        self.owner.s["colorbar_label"] = text
+
+
+def _map_options():
+    import numpy as np
+    import verif.location
+    import verif.metric
+
+    class _MapData(object):
+        num_inputs = 1
+        locations = [verif.location.Location(i, 60.0 + i, 10.0 + i, 100.0 * i) for i in range(4)]
+        import verif.variable
+        variable = verif.variable.Variable("T", "K")
+
+        def get_legend(self): return ["a"]
+        get_names = get_legend
+
+    def body():
+        cases = 0
+        y = np.array([[1.0], [2.0], [4.0], [5.0]])
+        for clim in (None, [0.0, 5.0], [-2.0, 0.0], [1.5, 3.0], [0.0, 0.0]):
+            for cmap in (None, "RdBu"):
+                for clabel in (None, "my label"):
+                    pl = verif.output.Standard(verif.metric.Mae())
+                    pl.clim, pl.cmap, pl.clabel = clim, cmap, clabel
+                    rec = _RecMap()
+                    fake = FakePyplot()
+                    fake.fig.colorbar = lambda cs, **kw: _RecBar(fake)
+                    pl._get_x_y = lambda data, axis: (list(range(4)), y, "Location", ["a"], None)
+                    pl._setup_map = lambda data, N, Y: (rec, np.arange(4.0), np.arange(4.0))
+                    pl._add_annotation = lambda *a, **kw: None
+                    pl._get_transform_args = lambda *a, **kw: {}
+                    cases += 1
+                    with engine.patched(verif.output, mpl=fake), engine.patched(verif.util, mpl=fake):
+                        pl._map_core(_MapData())
+                    sc = [k for k in rec.scatters if "vmin" in k or "vmax" in k]
+                    want = clim if clim is not None else [verif.util.nanpercentile(y.flatten(), pl._mapLowerPerc), verif.util.nanpercentile(y.flatten(), pl._mapUpperPerc)]
+                    ok = (len(sc) == 1 and sc[0].get("vmin") == want[0] and sc[0].get("vmax") == want[1] and sc[0].get("cmap") == cmap
+                          and fake.s.get("colorbar_label") == (clabel if clabel is not None else pl._metric.label(_MapData.variable)))
+                    if not ok:
+                        return cases, {"clim": clim, "cmap": cmap, "clabel": clabel, "scatter-arguments": {k: str(v) for k, v in (sc[0] if sc else {}).items() if k in ("vmin", "vmax", "cmap")},
+                                       "colorbar-label": fake.s.get("colorbar_label"), "want-limits": [float(w) for w in want]}
+        return cases, None
+    return body
+
+
+_enumerated("verif.output.Standard._map_core#BOUNDED:-clim,-cmap,-clabel-reach-the-map-and-its-colour-bar", ("C17",),
+            "5 colour limits (none, and bounds equal to 0) x 2 colour maps x 2 colour-bar labels on a four-station map; the map object and the colour bar are recording stand-ins",
+            _map_options(), ["verif.output.Standard._map_core"])
